@@ -374,6 +374,10 @@ func (w *c07hWorld) viol(sig, opKind string, extra map[string]any) {
 	for k, v := range extra {
 		d[k] = v
 	}
+	if strings.Contains(sig, "concurrent-login") {
+		w.run.Violation(sig, d)
+		return
+	}
 	if strings.Contains(sig, "dead") {
 		w.run.Violation(strings.SplitN(sig, "|dead=", 2)[0], d)
 		return
@@ -423,8 +427,8 @@ func (w *c07hWorld) check(opKind string) {
 			}
 		}
 	}
-	// at most one control connection per client is current (sequential runs only; see registry level)
-	if opKind != "barrier" {
+	// at most one control connection per client is current (at barriers: signature suffix concurrent-login; see registry level)
+	{
 		per := map[int64][]string{}
 		for _, k := range all {
 			rc := inList[k.c.ConnID]
@@ -438,7 +442,11 @@ func (w *c07hWorld) check(opKind string) {
 		for x, cs := range per {
 			if len(cs) > 1 {
 				sort.Strings(cs)
-				w.viol("C07:two-live-control-conns-for-client", opKind, map[string]any{"client_id": x, "client": w.name(x), "conns": cs})
+				sig := "C07:two-live-control-conns-for-client"
+				if opKind == "barrier" {
+					sig += "|concurrent-login"
+				}
+				w.viol(sig, opKind, map[string]any{"client_id": x, "client": w.name(x), "conns": cs, "by_client_returns": sm.GetControlConnectionByClientID(x).GetConnID()})
 			}
 		}
 	}
@@ -646,4 +654,135 @@ func TestVerifC07HandshakeConcurrent(t *testing.T) {
 	run.Floor("rounds_completed", int64(rounds*9/10))
 	run.Floor("logins_ok", 100)
 	run.Floor("evicted_conns_reaped", 20)
+}
+
+// TestVerifC07HandshakeSimultaneousLogin is the minimal concurrent-login scenario: two
+// connections answer their challenges for the SAME client at the same moment (released
+// from a spin barrier). At quiescence (both handshakes returned, adapter cleanup played for
+// every transport the server closed) at most one of them may still be a live registered
+// control connection of that client.
+func TestVerifC07HandshakeSimultaneousLogin(t *testing.T) {
+	run := vk.Start(t, "C07", "handshake-simultaneous-login")
+	defer run.Finish()
+	rounds := run.Pick(400, 6000)
+	run.Rule(fmt.Sprintf("%d rounds on the mini-server: connections c1,c2 both obtain a challenge for client A (sequentially), then both phase-2 responses (valid HMAC) are delivered from two goroutines released by a spin barrier, the second one after a seeded spin delay; a third of the rounds start with A already connected on c0; at quiescence: lookups and transports of c0,c1,c2; distinct = outcome shape", rounds))
+	r := run.Rand("delay")
+	var w *c07hWorld
+	for rd := 0; rd < rounds && run.Violations() <= 20; rd++ {
+		if rd%50 == 0 {
+			if w != nil {
+				w.finish()
+				w.close()
+			}
+			w = c07hNewWorld(t, run, 3, 0, 0, 0)
+		}
+		run.Case("simultaneous-login-round", rd)
+		a := w.clients[0]
+		sec := w.sec(a)
+		if rd%3 == 0 {
+			w.apply(c07hOp{Kind: "connect", Slot: 0}, true)
+			w.apply(c07hOp{Kind: "login", Slot: 0, Cli: 0}, true)
+		}
+		w.apply(c07hOp{Kind: "connect", Slot: 1}, true)
+		w.apply(c07hOp{Kind: "connect", Slot: 2}, true)
+		k1, k2 := w.slot(1), w.slot(2)
+		if k1 == nil || k2 == nil {
+			t.Fatalf("c07: simultaneous login: connect failed")
+		}
+		r1, _ := k1.c.Phase1(a, "control")
+		r2, _ := k2.c.Phase1(a, "control")
+		if r1 == nil || r2 == nil || r1.Challenge == "" || r2.Challenge == "" {
+			t.Fatalf("c07: simultaneous login: no challenge")
+		}
+		delay := r.Intn(1 + []int{0, 200, 2000, 20000}[r.Intn(4)])
+		var start atomic.Int32
+		var ok1, ok2 bool
+		var wg sync.WaitGroup
+		wg.Add(2)
+		go func() {
+			defer wg.Done()
+			start.Add(1)
+			for start.Load() < 2 {
+			}
+			rr, _ := k1.c.Phase2(a, HMACResp(sec, r1.Challenge), "control")
+			ok1 = rr != nil && rr.Success
+		}()
+		go func() {
+			defer wg.Done()
+			start.Add(1)
+			for start.Load() < 2 {
+			}
+			x := 0
+			for i := 0; i < delay; i++ {
+				x += i
+			}
+			_ = x
+			rr, _ := k2.c.Phase2(a, HMACResp(sec, r2.Challenge), "control")
+			ok2 = rr != nil && rr.Success
+		}()
+		wg.Wait()
+		if ok1 {
+			k1.ctlAs.Store(a)
+		}
+		if ok2 {
+			k2.ctlAs.Store(a)
+		}
+		run.Eval(1)
+		// quiescence: adapter cleanup for every transport the server closed
+		w.prevReg = map[string]bool{}
+		w.reap()
+		sm := w.n.SM
+		live := 0
+		var shape []string
+		for _, k := range []*c07hConn{k1, k2} {
+			rc := sm.GetControlConnection(k.c.ConnID)
+			st := "gone"
+			if rc != nil && !k.c.ServerClosedTransport() {
+				st = fmt.Sprintf("registered,auth=%v,client=%s,transport-open", rc.Authenticated, w.name(rc.ClientID))
+				if rc.Authenticated && rc.ClientID == a {
+					live++
+				}
+			}
+			shape = append(shape, st)
+		}
+		cur := sm.GetControlConnectionByClientID(a)
+		idx := "nil"
+		if cur != nil {
+			idx = map[bool]string{true: "c1", false: "c2"}[cur.ConnID == k1.c.ConnID]
+			if cur.ConnID != k1.c.ConnID && cur.ConnID != k2.c.ConnID {
+				idx = "c0"
+			}
+		}
+		run.Distinct(fmt.Sprintf("c1=%s c2=%s index=%s ok=%v/%v", shape[0], shape[1], idx, ok1, ok2))
+		if ok1 && ok2 {
+			run.Count("both_logins_succeeded", 1)
+		}
+		if live > 1 {
+			run.Count("both_stay_registered", 1)
+			listed, authd := 0, 0
+			for _, e := range sm.GetClientRegistry().List() {
+				if e.ClientID == a {
+					listed++
+				}
+			}
+			for _, e := range sm.GetClientRegistry().ListAuthenticated() {
+				if e.ClientID == a {
+					authd++
+				}
+			}
+			run.Observe("witness", map[string]any{"round": rd, "spin_delay": delay, "c1": shape[0], "c2": shape[1], "GetControlConnectionByClientID": idx, "List_entries_for_A": listed, "ListAuthenticated_entries_for_A": authd, "transports_closed_by_server": []bool{k1.c.ServerClosedTransport(), k2.c.ServerClosedTransport()}})
+		}
+		w.check("barrier")
+		// close the round's connections (peer EOF)
+		for i := 0; i < 3; i++ {
+			if k := w.slot(i); k != nil {
+				w.cleanup(k, "round end")
+			}
+		}
+	}
+	if w != nil {
+		w.finish()
+		w.close()
+	}
+	run.Floor("both_logins_succeeded", int64(rounds/2))
 }
